@@ -17,7 +17,7 @@ use crate::types::expression::{
 };
 use crate::types::semantic::{
     ExtendedExpression, GlobalSemanticContext, SemanticContext, SemanticContextInstruction,
-    SemanticStack,
+    SemanticStack, SemanticStackContext,
 };
 use crate::types::types::{Type, TypeName};
 use crate::types::{
@@ -1172,7 +1172,20 @@ where
         }
 
         // If return is called do not set loop-specific instructions
-        if !return_is_called {
+        if return_is_called {
+            // The end label is still a jump target of every `break`
+            let break_jump = SemanticStackContext::JumpTo {
+                label: label_loop_end.clone(),
+            };
+            if loop_body_state
+                .borrow()
+                .get_context()
+                .get()
+                .contains(&break_jump)
+            {
+                loop_body_state.borrow_mut().set_label(label_loop_end);
+            }
+        } else {
             // Because it's loop jump to loop begin
             loop_body_state
                 .borrow_mut()
